@@ -44,6 +44,10 @@ func main() {
 		for _, id := range ids {
 			fmt.Println(id)
 		}
+	case "blocking":
+		os.Exit(cmdBlocking(os.Args[2:]))
+	case "cfg":
+		os.Exit(cmdCfg(os.Args[2:]))
 	case "callees":
 		os.Exit(cmdCallees(os.Args[2:]))
 	case "callpath":
